@@ -26,7 +26,9 @@ PROG = {
               "subroutine push(self)", "class(stack) :: self", "end subroutine push",
               "subroutine work(n)", "integer :: n", "contains", "function scale(x)", "real :: x, scale", "end function scale",
               "end subroutine work", "end module mod_a"],
-    "b.f90": ["module mod_b", "contains", "function scale(x)", "real :: x, scale", "end function scale", "end module mod_b"],
+    "b.f90": ["module mod_b", "type circle", "real :: r", "end type circle", "interface circle", "module procedure new_circle", "end interface circle",
+              "contains", "function scale(x)", "real :: x, scale", "end function scale",
+              "function new_circle()", "type(circle) :: new_circle", "end function new_circle", "end module mod_b"],
 }
 PSET = dict(proc_internals=True, display=["public", "private", "protected"])
 
@@ -38,21 +40,26 @@ TREE = {
     "mod_a/push": ("subroutine", {"variable": ["self"]}),
     "mod_a/work": ("subroutine", {"variable": ["n"], "function": ["scale"]}),
     "mod_a/work/scale": ("function", {"variable": ["x"]}),
-    "mod_b": ("module", {"function": ["scale"]}),
+    # a type and its overridden constructor (generic interface) share the name `circle`: the case the user guide gives for qualifiers.
+    # Unqualified lookups find types before interfaces (the order of FortranBase.children).
+    "mod_b": ("module", {"function": ["scale", "new_circle"], "type": ["circle"], "interface": ["circle@interface"]}),
     "mod_b/scale": ("function", {"variable": ["x"]}),
+    "mod_b/circle": ("type", {"variable": ["r"]}), "mod_b/circle/r": ("variable", {}),
+    "mod_b/circle@interface": ("interface", {}), "mod_b/new_circle": ("function", {}),
     "mod_a/stack/items": ("variable", {}), "mod_a/stack/count": ("variable", {}), "mod_a/stack/push": ("bound", {}),
     "mod_a/count": ("variable", {}), "mod_a/work/n": ("variable", {}),
 }
 PROJECT_LEVEL = {  # what Project.find searches: kind -> {name: path}
     "module": {"mod_a": "mod_a", "mod_b": "mod_b"},
-    "type": {"stack": "mod_a/stack"},
-    "procedure": {"push": "mod_a/push", "work": "mod_a/work", "scale": "mod_b/scale"},
+    "type": {"stack": "mod_a/stack", "circle": "mod_b/circle"},
+    "procedure": {"push": "mod_a/push", "work": "mod_a/work", "scale": "mod_b/scale", "new_circle": "mod_b/new_circle",
+                  "circle": "mod_b/circle@interface"},
     "absinterface": {"area_fn": "mod_a/area_fn"},
 }
 KIND_SYN = {"procedure": "procedure", "proc": "procedure", "subroutine": "procedure", "function": "procedure", "type": "type", "module": "module",
             "interface": "absinterface", "absinterface": "absinterface"}
 CHILD_OK = {"variable": ("variable",), "function": ("function",), "subroutine": ("subroutine",), "type": ("type",), "bound": ("bound",),
-            "absinterface": ("absinterface",)}
+            "absinterface": ("absinterface",), "interface": ("interface",)}
 
 CONTEXTS = ["mod_a", "mod_a/stack", "mod_a/stack/items", "mod_a/stack/push", "mod_a/work", "mod_a/work/n", None]
 
@@ -70,6 +77,10 @@ LINKS = [
     ("[[area_fn]]", "area_fn", None, None, None), ("[[area_fn(interface)]]", "area_fn", "interface", None, None),
     ("[[area_fn(absinterface)]]", "area_fn", "absinterface", None, None), ("[[AREA_FN(Interface)]]", "area_fn", "interface", None, None),
     ("[[mod_a:area_fn(absinterface)]]", "mod_a", None, "area_fn", "absinterface"),
+    ("[[mod_b:circle]]", "mod_b", None, "circle", None), ("[[mod_b:circle(interface)]]", "mod_b", None, "circle", "interface"),
+    ("[[mod_b:circle(type)]]", "mod_b", None, "circle", "type"), ("[[MOD_B(module):Circle(Interface)]]", "mod_b", "module", "circle", "interface"),
+    ("[[circle]]", "circle", None, None, None), ("[[circle(type)]]", "circle", "type", None, None), ("[[circle(proc)]]", "circle", "proc", None, None),
+    ("[[circle:r]]", "circle", None, "r", None), ("[[mod_b:new_circle(function)]]", "mod_b", None, "new_circle", "function"),
 ]
 
 
@@ -84,7 +95,7 @@ def _children(path, kind=None):
     for k, names in TREE[path][1].items():
         if kind is None or k in CHILD_OK.get(kind, (kind,)) or (kind in ("proc", "procedure") and k in ("function", "subroutine")):
             for n in names:
-                out.append((n, f"{path}/{n}"))
+                out.append((n.split("@")[0], f"{path}/{n}"))
     return out
 
 
@@ -141,7 +152,11 @@ def _entity(project, path):
     ent = [m for m in project.modules if m.name == parts[0]][0]
     for p_ in parts[1:]:
         nxt = None
-        for l in ("types", "subroutines", "functions", "variables", "boundprocs", "args", "absinterfaces"):
+        lists = ("types", "subroutines", "functions", "variables", "boundprocs", "args", "absinterfaces", "interfaces")
+        if "@" in p_:
+            p_, only = p_.split("@")
+            lists = (only + "s",)
+        for l in lists:
             for c in getattr(ent, l, []) or []:
                 if getattr(c, "name", None) == p_:
                     nxt = c
